@@ -241,13 +241,13 @@ def isMaxRunB (w : List Char) (s e : Nat) : Bool :=
 
 def posRange (s e : Int) : List Int := (List.range (e - s).toNat).map (fun (i : Nat) => s + (i : Int))
 
-/-- clauses for `get_regions`: per sequence, in file order -/
+/-- clauses for `get_regions`, per sequence (the order in which sequences are listed is not
+    constrained by the property) -/
 def scanSpecB (seqs : List (String × List Char)) (out : List Region) : List String :=
   let names := seqs.map (·.1)
   let perSeq (f : String → List Char → List Region → Bool) : Bool :=
     seqs.all fun sq => f sq.1 sq.2 (out.filter (fun r => r.1 == sq.1))
-  let order := (out.map (·.1)).eraseDups == (names.filter (fun n => out.any (fun r => r.1 == n)))
-  (if out.all (fun r => names.contains r.1) && order then [] else ["scan_sequence_names_in_order"]) ++
+  (if out.all (fun r => names.contains r.1) then [] else ["scan_known_sequences"]) ++
   (if perSeq (fun _ w rs => rs.all (fun r => isMaxRunB w r.2.1 r.2.2)) then []
    else ["scan_each_is_maximal_run"]) ++
   (if perSeq (fun _ _ rs => pairwiseB (fun a b => a.2.2 < b.2.1) rs) then []
